@@ -202,7 +202,7 @@ def run(ctx):
     ctx.rule = ("one record per call of a real fcppt::math operator/function: every ordered pair of 2x2 int matrices over "
                 "{-1,0,1,2} (+, -, product; ==/!= on a eighth of them and all equal pairs), every 2x2 matrix with every vector over "
                 "{-1,0,1,2}^2 and scalars -2..3, seeded random 3x3 / 4x4 / rectangular matrices and vectors / dims of dimension "
-                "1-4 with entries in [-9,9] (600/400 rounds quick, 8000/5000 thorough), static and view storage; the 2x2 pair "
+                "1-4 with entries in [-9,9] (600/400 rounds quick, 6000/4000 thorough), static and view storage; the 2x2 pair "
                 "space is exhaustive, the rest is random, hence exhaustive=false; a class = (function, vector|dim|matrix group, "
                 "storage kinds, operand shapes, static indices, result category zero/neg/pos or true/false)")
     ctx.assumptions += [
